@@ -50,7 +50,7 @@ func init() {
 	reg(&Prop{ID: "C01", Level: "exploration",
 		Quick:    Tier{Cases: 40000, PerJob: 2500, Seconds: 70},
 		Thorough: Tier{Cases: 1500000, PerJob: 25000, Seconds: 1500},
-		Rule:     "one case = blob (empty / all-zero / shorter than a chunk / segment mix up to 48 chunks) x chunk sizes below and above the 4 KiB block x 0..3 seeds (edited copies, identical, empty file + empty index, duplicates, stale or truncated after indexing, the target itself) x prior target content (absent, empty, garbage, longer, shorter, older version, already correct, non-zero where the blob is zero) x N in 1..8 x invalid-seed action x {cloning filesystem emulated, no cloning}; 1/4 of cases inject store faults (k-th GetChunk fails / missing / slow), 1/6 rewrite part of a seed file at a tape-chosen I/O point during the run, 1/3 make every file-system call a scheduling point; oracle = nil => target bytes == blob, and success required when the liveness clause applies; distinct = distinct (configuration class, scheduler trace hash, clone-call counts); non-trivial = preemption or fault fired; 1/80 of the cases run the real `desync extract` binary (seeds as files with .caibx indexes, --skip-invalid-seeds / --regenerate-invalid-seeds, --in-place, prior destination content) against a real local store with the same oracle",
+		Rule:     "one case = blob (empty / all-zero / shorter than a chunk / segment mix up to 48 chunks) x chunk sizes below and above the 4 KiB block x 0..3 seeds (edited copies, identical, empty file + empty index, duplicates, stale or truncated after indexing, the target itself) x prior target content (absent, empty, garbage, longer, shorter, older version, already correct, non-zero where the blob is zero) x N in 1..8 x invalid-seed action x {cloning filesystem emulated, no cloning}; 1/4 of cases inject store faults (k-th GetChunk fails / missing / slow), 1/6 rewrite part of a seed file at a tape-chosen I/O point during the run, 1/3 make every file-system call a scheduling point; oracle = nil => target bytes == blob, and success required when the liveness clause applies; distinct = distinct (configuration class, scheduler trace hash, clone-call counts); non-trivial = preemption or fault fired; 1/80 of the cases run the real `desync extract` binary (seeds as files with .caibx indexes, --skip-invalid-seeds / --regenerate-invalid-seeds, --in-place, prior destination content) against a real local store with the same oracle; a fifth of the process-level cases run the command as a ptrace tracee and make one drawn file-system system call fail (ENOSPC / EIO / EDQUOT for calls that need space - once, or from then on as on a disk that stays full; EIO / EACCES / EPERM / EROFS for rename, unlink, chmod, chown, utimensat ...): the command may fail, but exit status 0 with a result the oracle rejects is a violation",
 		Assumptions: []string{
 			"FICLONERANGE is emulated in process with the alignment, EOF, length-0 and overlap rules of ioctl_ficlonerange(2)/generic_remap_checks; block size 4096 (tmpfs st_blksize)",
 			"scheduling granularity = channel/lock/store operations (plus file-system calls in 1/3 of the cases)",
@@ -74,7 +74,7 @@ func init() {
 	reg(&Prop{ID: "C06", Level: "exploration",
 		Quick:    Tier{Cases: 80000, PerJob: 5000, Seconds: 60},
 		Thorough: Tier{Cases: 3000000, PerJob: 50000, Seconds: 1500},
-		Rule:     "one case = blob (2/3 built from few distinct chunks repeated so that workers race on one ID, 1/3 generic) x one of {ChopFile, Copy (with and without duplicate ids), ChunkStream, make = IndexFromFile + ChopFile} x n in 1..8 x optional pre-filled target x fault budget 0..3 (the k-th HasChunk / StoreChunk of the target or GetChunk of the source fails or is slow; 1/3 of the cases are fault-free); oracle: nil => no injected failure was returned to desync, every index chunk is in the target store with correct bytes, a produced index equals the reference table; error => some failure was injected; 1/100 of the cases run the real `desync chop | cache | make | tar -i` binary (-e 0) against a loopback chunk server that answers the k-th HEAD/PUT/GET with 500: exit status must be non-zero then, and the store (and index) complete on exit 0; distinct = distinct (class, scheduler trace hash); non-trivial = preemption or fault fired",
+		Rule:     "one case = blob (2/3 built from few distinct chunks repeated so that workers race on one ID, 1/3 generic) x one of {ChopFile, Copy (with and without duplicate ids), ChunkStream, make = IndexFromFile + ChopFile} x n in 1..8 x optional pre-filled target x fault budget 0..3 (the k-th HasChunk / StoreChunk of the target or GetChunk of the source fails or is slow; 1/3 of the cases are fault-free); oracle: nil => no injected failure was returned to desync, every index chunk is in the target store with correct bytes, a produced index equals the reference table; error => some failure was injected; 1/100 of the cases run the real `desync chop | cache | make | tar -i` binary (-e 0) against a loopback chunk server that answers the k-th HEAD/PUT/GET with 500: exit status must be non-zero then, and the store (and index) complete on exit 0; distinct = distinct (class, scheduler trace hash); non-trivial = preemption or fault fired; a fifth of the process-level cases run the command as a ptrace tracee and make one drawn file-system system call fail (ENOSPC / EIO / EDQUOT for calls that need space - once, or from then on as on a disk that stays full; EIO / EACCES / EPERM / EROFS for rename, unlink, chmod, chown, utimensat ...): the command may fail, but exit status 0 with a result the oracle rejects is a violation",
 		Assumptions: []string{
 			"store failures are injected at call granularity (the call returns an error without side effect)",
 			"in-bubble, tar -i is covered through ChunkStream (the same function the command uses) with a byte reader instead of the tar pipe; the command itself runs at process level",
@@ -96,7 +96,7 @@ func init() {
 	reg(&Prop{ID: "C09", Level: "exploration",
 		Quick:    Tier{Cases: 120000, PerJob: 7500, Seconds: 60},
 		Thorough: Tier{Cases: 6000000, PerJob: 100000, Seconds: 1500},
-		Rule:     "one case = blob (empty, single short chunk, all-null, built from repeated chunks, generic with an inserted run of null chunks) x small chunk sizes x one of {IndexPos Seek/Read history of 1..60 operations with every whence, in/out-of-range and boundary offsets and read lengths 0..3*max; FUSE index-file node read requests (offset,size) in any order on 1..3 handles; the same on one handle shared by 2..3 concurrent tasks under the seeded scheduler} x store faults (k-th GetChunk fails or reports missing) in half of the cases; oracle = bytes.Reader-style model over the blob (returned bytes equal the blob range, short only at EOF or with an error, failed seek keeps the position, errors only when a fault was injected during the call, no panic); sub_evaluations = individual Seek/Read/FUSE requests; distinct = distinct (mode, sizes, faulty, chunk-count bucket, trace hash, outcome); every case is counted non-trivial (each is a multi-operation history); 1/400 of the cases run the real `desync cat -o <offset> -l <length>` binary against a real local store",
+		Rule:     "one case = blob (empty, single short chunk, all-null, built from repeated chunks, generic with an inserted run of null chunks) x small chunk sizes x one of {IndexPos Seek/Read history of 1..60 operations with every whence, in/out-of-range and boundary offsets and read lengths 0..3*max; FUSE index-file node read requests (offset,size) in any order on 1..3 handles; the same on one handle shared by 2..3 concurrent tasks under the seeded scheduler} x store faults (k-th GetChunk fails or reports missing) in half of the cases; oracle = bytes.Reader-style model over the blob (returned bytes equal the blob range, short only at EOF or with an error, failed seek keeps the position, errors only when a fault was injected during the call, no panic); sub_evaluations = individual Seek/Read/FUSE requests; distinct = distinct (mode, sizes, faulty, chunk-count bucket, trace hash, outcome); every case is counted non-trivial (each is a multi-operation history); 1/400 of the cases run the real `desync cat -o <offset> -l <length>` binary against a real local store; a fifth of the process-level cases run the command as a ptrace tracee and make one drawn file-system system call fail (ENOSPC / EIO / EDQUOT for calls that need space - once, or from then on as on a disk that stays full; EIO / EACCES / EPERM / EROFS for rename, unlink, chmod, chown, utimensat ...): the command may fail, but exit status 0 with a result the oracle rejects is a violation",
 		Assumptions: []string{
 			"no FUSE mount is possible in the sandbox: the node methods (Open/Read/Getattr) are driven in process, the kernel <-> go-fuse path is not exercised",
 			"FUSE offsets are limited to 0..size as the kernel does after Getattr",
@@ -175,7 +175,7 @@ func init() {
 	reg(&Prop{ID: "C05", Level: "exploration",
 		Quick:    Tier{Cases: 9600, PerJob: 600, Seconds: 70},
 		Thorough: Tier{Cases: 640000, PerJob: 8000, Seconds: 1500},
-		Rule:     "one case = random tree created as root on tmpfs (<= 40 entries, depth <= 5: nested and empty directories, files of 0..16 KiB, symlinks to anything, char/block devices, user xattrs, arbitrary uid/gid, permission + set-id/sticky bits, arbitrary ns mtimes, names with any bytes except '/' and NUL) x digest {SHA512/256, SHA256} x one of {catar: Tar -> UnTar; caidx+store: Tar -> pipe -> ChunkStream(n) -> index written and re-read -> UnTarIndex(n) with a slow, reordering store, all under the seeded scheduler; GNU-tar output parsed with archive/tar; mtree output read back by an mtree(5) parser; tar-stream input built with archive/tar, optionally cut inside a member}; oracle: lstat/readlink/xattr/content/mtime snapshot of source and result equal (ranked categories), two packings byte-identical, chunked archive bytes == direct archive bytes; distinct = distinct (path, digest, size bucket, trace hash / tape); every case is non-trivial (a generated tree); 1/60 of the cases run the real `desync tar`, `desync untar` and `desync mtree` binaries (catar file or -i with a local store, default or --digest sha256, disk or --input-format tar input incl. a truncated tar file) on a generated tree with the same snapshot oracle",
+		Rule:     "one case = random tree created as root on tmpfs (<= 40 entries, depth <= 5: nested and empty directories, files of 0..16 KiB, symlinks to anything, char/block devices, user xattrs, arbitrary uid/gid, permission + set-id/sticky bits, arbitrary ns mtimes, names with any bytes except '/' and NUL) x digest {SHA512/256, SHA256} x one of {catar: Tar -> UnTar; caidx+store: Tar -> pipe -> ChunkStream(n) -> index written and re-read -> UnTarIndex(n) with a slow, reordering store, all under the seeded scheduler; GNU-tar output parsed with archive/tar; mtree output read back by an mtree(5) parser; tar-stream input built with archive/tar, optionally cut inside a member}; oracle: lstat/readlink/xattr/content/mtime snapshot of source and result equal (ranked categories), two packings byte-identical, chunked archive bytes == direct archive bytes; distinct = distinct (path, digest, size bucket, trace hash / tape); every case is non-trivial (a generated tree); 1/60 of the cases run the real `desync tar`, `desync untar` and `desync mtree` binaries (catar file or -i with a local store, default or --digest sha256, disk or --input-format tar input incl. a truncated tar file) on a generated tree with the same snapshot oracle; a fifth of the process-level cases run the command as a ptrace tracee and make one drawn file-system system call fail (ENOSPC / EIO / EDQUOT for calls that need space - once, or from then on as on a disk that stays full; EIO / EACCES / EPERM / EROFS for rename, unlink, chmod, chown, utimensat ...): the command may fail, but exit status 0 with a result the oracle rejects is a violation",
 		Assumptions: []string{
 			"metadata fidelity is input coverage rather than simulation (DESIGN.md C05 honest limit); the simulated part is the five-stage chunked pipeline",
 			"GNU tar output: xattrs and sub-second mtimes are not compared (the format cannot carry them); a refusal by archive/tar is not a wrong result",
